@@ -39,16 +39,21 @@ def _text_of(x):
 
 
 RW_EXC = {"RuntimeError": RuntimeError, "MemoryError": MemoryError, "RecursionError": RecursionError,
-          "SystemExit": SystemExit, "KeyboardInterrupt": KeyboardInterrupt}
+          "SystemExit": SystemExit, "KeyboardInterrupt": KeyboardInterrupt,
+          "SystemExit0": SystemExit}
+BASE_EXC_FAULTS = ("SystemExit", "SystemExit0", "KeyboardInterrupt")
 
 
-def invoke(tool, argv, stdin_text, cwd, write_faults=None, rw_faults=None):
+def invoke(tool, argv, stdin_text, cwd, write_faults=None, rw_faults=None, list_faults=None, noisy=None):
     """Run $VERIF_REPO/bin/<tool> as __main__ inside this process.
 
     Fault hooks (from outside, nothing in /repo): `write_faults` {absolute path: errno name} makes
     `atomic_write_file(path, ...)` as seen by _cmdline raise that OSError before anything is created;
-    `rw_faults` {input text: exception name} makes the tool's rewriter raise on that text.  Every call of
-    atomic_write_file is recorded with its outcome.
+    `rw_faults` {input text: exception name} makes the tool's rewriter raise on that text ("SystemExit0" is
+    `sys.exit(0)`); `list_faults` {real path of a directory: errno name} makes os.listdir of it raise.  Every call of
+    atomic_write_file is recorded with its outcome.  `noisy="env"` is a run with PYFLYBY_LOG_LEVEL=DEBUG (the
+    variable is read when pyflyby._log is imported, which has happened in this process: the level is set the
+    way that import would have set it); `--verbose` comes with argv.
 
     fd 0 is /dev/null (so os.isatty(0) is False, like a pipe), fd 1/2 go to a temp file (external
     commands write there), Python-level stdin/stdout/stderr are StringIO objects.
@@ -95,12 +100,29 @@ def invoke(tool, argv, stdin_text, cwd, write_faults=None, rw_faults=None):
             t = _text_of(a[0]) if a else None
             calls.append(t)
             if t in rw_faults:
+                if rw_faults[t] == "SystemExit0":
+                    raise SystemExit(0)
                 raise RW_EXC[rw_faults[t]]("injected rewriter fault")
         depth[0] += 1
         try:
             return orig_fn(*a, **k)
         finally:
             depth[0] -= 1
+
+    list_faults = list_faults or {}
+    listed_fail = []
+    orig_listdir = os.listdir
+
+    def flistdir(path="."):
+        try:
+            rp = os.path.realpath(os.fsdecode(path))
+        except Exception:
+            rp = None
+        if rp in list_faults:
+            kname = list_faults[rp]
+            listed_fail.append(os.fsdecode(path))
+            raise OSError(getattr(errno, kname), os.strerror(getattr(errno, kname)), os.fsdecode(path))
+        return orig_listdir(path)
 
     saved = (sys.argv, sys.stdin, sys.stdout, sys.stderr, os.getcwd(), dict(os.environ))
     fds = [os.dup(0), os.dup(1), os.dup(2)]
@@ -119,6 +141,12 @@ def invoke(tool, argv, stdin_text, cwd, write_faults=None, rw_faults=None):
             CL.atomic_write_file = aw
         if write_faults:
             FL.open = fopen
+        if list_faults:
+            os.listdir = flistdir
+        if noisy == "env":
+            os.environ["PYFLYBY_LOG_LEVEL"] = "DEBUG"
+            from pyflyby._log import logger as _lg
+            _lg.set_level("DEBUG")
         os.dup2(devnull, 0)
         os.dup2(tmp.fileno(), 1)
         os.dup2(tmp.fileno(), 2)
@@ -146,6 +174,9 @@ def invoke(tool, argv, stdin_text, cwd, write_faults=None, rw_faults=None):
             CL.atomic_write_file = orig_aw
         if write_faults and not had_open and "open" in FL.__dict__:
             del FL.open
+        os.listdir = orig_listdir
+        if hasattr(CL, "_fail_fast"):
+            CL._fail_fast = False
         sys.argv, sys.stdin, sys.stdout, sys.stderr = saved[:4]
         os.dup2(fds[0], 0)
         os.dup2(fds[1], 1)
@@ -166,7 +197,8 @@ def invoke(tool, argv, stdin_text, cwd, write_faults=None, rw_faults=None):
     tmp.seek(0)
     fdout = tmp.read().decode("utf-8", "replace")
     tmp.close()
-    res.update(out=out.getvalue(), err=err.getvalue(), rewrites=calls, writes=writes, fdout_len=len(fdout), fdout=fdout[:2000])
+    res.update(out=out.getvalue(), err=err.getvalue(), rewrites=calls, writes=writes, fdout_len=len(fdout), fdout=fdout[:2000],
+               listed_fail=listed_fail)
     return res
 
 
@@ -225,12 +257,16 @@ def rel(root, p):
     return "//" + p
 
 
-def expand_real(root, args):
+def expand_real(root, args, unlistable=()):
     """The harness's own reading of 'arguments that are files are always included, directories are
-    recursively searched for *.py files' (os.* calls on the real tree, before the tool runs)."""
+    recursively searched for *.py files' (os.* calls on the real tree, before the tool runs).  Directories are
+    searched whether or not they are reached through a symlink (what the symlink policy has to say about that
+    is the oracle's business); `unlistable` = real paths of directories whose listing fails (fault)."""
     out = []
 
-    def walk(d):
+    def walk(d, depth=0):
+        if os.path.realpath(os.path.join(root, d)) in unlistable or depth > 12:
+            return
         for e in sorted(os.listdir(os.path.join(root, d))):
             if e.startswith(".") or e == "__pycache__":
                 continue
@@ -242,7 +278,7 @@ def expand_real(root, args):
                 if e.endswith(".py"):
                     out.append(n)
             elif os.path.isdir(p):
-                walk(n)
+                walk(n, depth + 1)
 
     for a in args:
         p = os.path.join(root, a)
@@ -329,6 +365,12 @@ class C09(Prop):
         "Pfb.C09.D12_witness",
         "Pfb.C09.D12_witness_summary",
         "Pfb.C09.C09_isolation_full_false",
+        "Pfb.C09.mainV_plain",
+        "Pfb.C09.processFilesFF_none",
+        "Pfb.C09.C09_failfast_stops",
+        "Pfb.C09.C09_unsafe_isolated",
+        "Pfb.C09.C09_2_witness",
+        "Pfb.C09.C09_1a_witness",
     ]
     anchors = [
         ("lib/python/pyflyby/_cmdline.py", "parse_args"),
@@ -373,7 +415,11 @@ class C09(Prop):
             "hit; one failing file at every position of 2-5-file runs failing in 15 ways (temp name > NAME_MAX, injected EACCES/"
             "EROFS/ENOSPC/EDQUOT below atomic_write_file, rewriter raising RuntimeError/MemoryError/RecursionError/SystemExit/"
             "KeyboardInterrupt, unparsable, undecodable, missing, dangling) x 8 action configurations; a probe of Filename's "
-            "whitelist on 400 names against the model's safeName.  The oracle snapshots the WHOLE scratch tree (contents, link "
+            "whitelist on 400 names against the model's safeName; defect round: symlinks to DIRECTORIES (as argument, met while "
+            "recursing, chains, next to the real directory, a file named through the link) x policies x 4 configurations; "
+            "failing-file runs with --verbose or PYFLYBY_LOG_LEVEL=DEBUG (15% of the random cases too); os.listdir of a "
+            "directory argument / sub-directory failing (EACCES, EIO); sys.exit(0) inside the rewriter; answers like "
+            "'yikes no'.  The oracle snapshots the WHOLE scratch tree (contents, link "
             "targets, modes, created/removed entries) and, when a failure occurred, re-runs the command without the failing "
             "file(s) on a fresh tree and demands the same result for every other file.  Non-trivial: at least one file is processed or the exit "
             "status is non-zero; distinct by the whole case")
@@ -384,22 +430,31 @@ class C09(Prop):
                     "(Env.writable; what a failed rename leaves behind is C08), "
                     "optparse's dispatch of callbacks in command-line order",
                     "which set_actions variant the model uses (pinned tree / tree with fixes/C09-D4.diff) is chosen by one probe "
-                    "invocation at setup (or VERIF_C09_KEEP); everything else is compared"]
+                    "invocation at setup (or VERIF_C09_KEEP); everything else is compared",
+                    "likewise two probe invocations choose mainV's bits: --verbose is fail-fast (tree before fixes/C09-2.diff) "
+                    "and an unsafe argument name refuses the run (tree before fixes/C09-1a.diff)",
+                    "oracle only (no model request): trees holding a symlink to a directory (two names for one inode), "
+                    "os.listdir faults, BaseException out of the rewriter hook"]
     assumptions = ["DIFF / EXECUTE commands do not touch the argument files (the harness uses pyflyby-diff, true, echo); that the "
                    "*file names* cannot make them do so is not assumed: names outside Filename's whitelist are refused "
                    "(C09_unsafe_refused, safeName_shell_inert) and the oracle watches the whole tree",
                    "/bin/sh does not brace-expand ('{', '}', ',' are in the whitelist; dash here)",
-                   "stdin/stdout are not ttys (default action PRINT); --debug/--verbose (documented fail-fast) are not used",
-                   "text-mode reading: CRLF files, hard links and symlinked directories are outside the modelled tree shapes",
+                   "stdin/stdout are not ttys (default action PRINT); --debug (documented fail-fast) is not used; --verbose and "
+                   "PYFLYBY_LOG_LEVEL=DEBUG (documented as noise only) are",
+                   "text-mode reading: CRLF files and hard links are outside the modelled tree shapes; symlinked directories "
+                   "are generated and judged by the oracle, not by the model",
                    "KeyboardInterrupt at a QUERY prompt (SystemExit(1)) is not modelled"]
 
     _scratch = None
     _keep = False     # which variant of the model corresponds to the tree: False = pinned (D4 present)
+    _ff = True        # --verbose / PYFLYBY_LOG_LEVEL=DEBUG are fail-fast (C09-2 present)
+    _iso = False      # an unsafe argument name is reported per file (C09-1a repaired)
 
     # -- lifecycle -----------------------------------------------------------
     def setup(self, tier, rng):
         self._scratch = tempfile.mkdtemp(prefix="pfbC09.")
         self._keep = self._probe_keep()
+        self._ff, self._iso = self._probe_variants()
 
     def _probe_keep(self):
         """One bit decides which `set_actions` the model uses (Model.lean `setActions keep`): does an action
@@ -413,6 +468,24 @@ class C09(Prop):
             build_tree(d, {"t.py": ["file", content("C", 1)], "l.py": ["link", "t.py"]})
             invoke("reformat-imports", ["--symlinks=skip", "--replace", os.path.join(d, "l.py")], "", d)
             return os.path.islink(os.path.join(d, "l.py"))
+        finally:
+            shutil.rmtree(d, ignore_errors=True)
+
+    def _probe_variants(self):
+        """Two more bits choose the model variant (Model.lean `mainV`): is `--verbose` fail-fast on this tree (before
+        fixes/C09-2.diff), and is an argument name that `Filename` refuses reported per file (fixes/C09-1a.diff) or
+        does it refuse the whole run?  Everything else is compared."""
+        d = tempfile.mkdtemp(prefix="probe.", dir=self._scratch)
+        try:
+            build_tree(d, {"x.py": ["file", content("X", 1)], "a b.py": ["file", content("C", 2)]})
+            r1 = invoke("reformat-imports", ["--verbose", os.path.join(d, "x.py")], "", d)
+            r2 = invoke("reformat-imports", [os.path.join(d, "a b.py")], "", d)
+            ff = bool(r1["crash"])
+            iso = not (r2["crash"] or "").startswith("UnsafeFilenameError")
+            v = os.environ.get("VERIF_C09_VARIANTS")      # "<ff><iso>", e.g. "10"
+            if v and len(v) == 2 and set(v) <= {"0", "1"}:
+                ff, iso = v[0] == "1", v[1] == "1"
+            return ff, iso
         finally:
             shutil.rmtree(d, ignore_errors=True)
 
@@ -487,9 +560,12 @@ class C09(Prop):
         Fc = gen_c09.fault_exhaustive(tier, rng)
         P = [gen_c09.safename_probe()]
         Ut = gen_c09.unsafe_target_exhaustive(tier, rng) if gen_c09.UNSAFE_TARGETS else []
+        # defect round: symlinked directories (C09-3), failing-file runs with --verbose / PYFLYBY_LOG_LEVEL=DEBUG (C09-2)
+        Dl = gen_c09.dirlink_exhaustive(tier, rng) if gen_c09.DIRLINKS else []
+        Nz = gen_c09.noisy_exhaustive(tier, rng)
         if tier == "thorough":
-            return P + H + Fc + Ut + A + B
-        return P + H + Fc + Ut + rng.sample(A, 90) + rng.sample(B, 90)
+            return P + H + Fc + Ut + Dl + Nz + A + B
+        return P + H + Fc + Ut + Dl + Nz + rng.sample(A, 90) + rng.sample(B, 90)
 
     # -- implementation ------------------------------------------------------
     def run_impl(self, case):
@@ -513,18 +589,24 @@ class C09(Prop):
             os.mkdir(root)
             tree, args = case["tree"], case["args"]
             build_tree(root, tree)
-            names = set(tree) | set(args) | set(walk_names(root))
+            faults = case.get("faults") or {}
+            list_faults = {os.path.realpath(os.path.join(root, n)): k for n, k in (faults.get("list") or {}).items()}
+            expanded = expand_real(root, args, set(list_faults))
+            # (files reached through a symlinked directory have names os.walk does not produce)
+            names = set(tree) | set(args) | set(walk_names(root)) | set(expanded)
             facts = {}
             for n in sorted(names):
                 p = os.path.join(root, n)
+                dn = os.path.dirname(os.path.normpath(p))
                 facts[n] = dict(islink=os.path.islink(p), isfile=os.path.isfile(p), isdir=os.path.isdir(p),
-                                real=rel(root, os.path.realpath(p)) if os.path.exists(p) else None)
+                                real=rel(root, os.path.realpath(p)) if os.path.exists(p) else None,
+                                # some directory component of the name is a symlink (the last component aside)
+                                dirlink=os.path.realpath(dn) != dn)
             for n in list(facts):
                 r = facts[n]["real"]
                 if r and r not in names:
                     names.add(r)
             names = sorted(names)
-            expanded = expand_real(root, args)
             before = {n: snap(root, n) for n in names}
             # the rewriter's graph on every content that can occur (closed under re-application)
             ref = {}
@@ -551,13 +633,12 @@ class C09(Prop):
                     o2 = ref_rewrite(case["tool"], case.get("extra", []), t + "\n", scratch)
                     refnl[t] = o2
             argv = argv_of(case, root)
-            faults = case.get("faults") or {}
             write_faults = {os.path.join(root, n): k for n, k in (faults.get("write") or {}).items()}
             rw_faults = {}
             for n, k in (faults.get("rw") or {}).items():
                 if tree.get(n, [""])[0] == "file":
                     rw_faults[tree[n][1]] = k
-                    if k not in ("SystemExit", "KeyboardInterrupt"):
+                    if k not in BASE_EXC_FAULTS:
                         ref[tree[n][1]] = None      # on this text the rewriter (with the hook) raises an Exception
             stdin_text = "".join(a + "\n" for a in case.get("answers", []))
             # keep every original inode allocated during the run, so that a re-created file can never get the
@@ -567,7 +648,10 @@ class C09(Prop):
                 if before[n][0] == "file":
                     pins.append(os.open(os.path.join(root, n), os.O_RDONLY))
             try:
-                r = invoke(case["tool"], argv, stdin_text, root, write_faults, rw_faults)
+                r = invoke(case["tool"], argv, stdin_text, root, write_faults, rw_faults, list_faults,
+                           case.get("noisy"))
+                # the directories whose listing failed, under the names the tool met them (maybe through a link)
+                unlisted_dirs = sorted(set(rel(root, x) for x in r["listed_fail"]))
                 listing = walk_names(root)
                 for n in listing:
                     if n not in before:
@@ -583,7 +667,8 @@ class C09(Prop):
                        refnl=[[k, v] for k, v in sorted(refnl.items(), key=lambda kv: kv[0])],
                        rc=r["rc"], msg=r["msg"], crash=r["crash"], out=r["out"], err=r["err"],
                        rewrites=r["rewrites"], fdout_len=r["fdout_len"], fdout=r["fdout"][:2000],
-                       writes=[[rel(root, w[0]), w[1]] for w in r["writes"]], pid=os.getpid())
+                       writes=[[rel(root, w[0]), w[1]] for w in r["writes"]], pid=os.getpid(),
+                       listed_fail=[rel(root, x) for x in r["listed_fail"]], unlisted_dirs=unlisted_dirs)
             return obs
         finally:
             shutil.rmtree(base, ignore_errors=True)
@@ -591,7 +676,7 @@ class C09(Prop):
                 shutil.rmtree(scratch, ignore_errors=True)
 
     # -- oracle --------------------------------------------------------------
-    def _run_plain(self, case):
+    def _run_plain(self, case, more_names=()):
         """The same command on a fresh copy of the tree, no fault hooks: whole-tree snapshot afterwards + stdout."""
         scratch, own = self._scratch_dir()
         base = tempfile.mkdtemp(prefix="base.", dir=scratch)
@@ -600,8 +685,8 @@ class C09(Prop):
             os.mkdir(root)
             build_tree(root, case["tree"])
             stdin_text = "".join(a + "\n" for a in case.get("answers", []))
-            r = invoke(case["tool"], argv_of(case, root), stdin_text, root)
-            names = sorted(set(case["tree"]) | set(walk_names(root)))
+            r = invoke(case["tool"], argv_of(case, root), stdin_text, root, noisy=case.get("noisy"))
+            names = sorted(set(case["tree"]) | set(walk_names(root)) | set(more_names))
             return dict(after={n: snap(root, n) for n in names}, out=r["out"], rc=r["rc"])
         finally:
             shutil.rmtree(base, ignore_errors=True)
@@ -616,8 +701,11 @@ class C09(Prop):
         before, after, facts, E = obs["before"], obs["after"], obs["facts"], obs["expanded"]
         ref = dict((k, v) for k, v in obs["ref"])
         root = obs["root"]
-        errtext = (obs["err"] or "") + (obs["msg"] or "")
+        # everything the user is told: stderr, the final message, and the exception that left the tool (if any)
+        errtext = (obs["err"] or "") + (obs["msg"] or "") + (obs.get("crash") or "")
         ctx = dict(tool=case["tool"], argv=argv_of(case), answers=case.get("answers", []), policy=policy, actions=acts)
+        if case.get("noisy"):
+            ctx["noisy"] = case["noisy"]
 
         def content_of(n):
             b = before.get(n)
@@ -634,13 +722,14 @@ class C09(Prop):
             d.update(kw)
             fails.append(d)
 
-        # names outside Filename's whitelist: the documented clean behaviour is to refuse the run with
-        # UnsafeFilenameError before anything is touched (whatever else is on the command line)
+        # names outside Filename's whitelist are never handed to the rewriter or the shell: such an argument cannot
+        # be processed, which is a failure on THAT file (reported, exit status non-zero, the other files are
+        # processed).  The tree before fixes/C09-1a.diff refuses the whole run instead (listed finding C09-1a).
         unsafe_args = [a for a in case["args"] if not documented_safe(os.path.join(root, a))]
         faults = case.get("faults") or {}
         bx_fired = {}       # BaseException faults of the rewriter hook that fired: name -> kind
         for n, k in (faults.get("rw") or {}).items():
-            if k in ("SystemExit", "KeyboardInterrupt") and case["tree"].get(n, [""])[0] == "file" \
+            if k in BASE_EXC_FAULTS and case["tree"].get(n, [""])[0] == "file" \
                     and case["tree"][n][1] in obs["rewrites"]:
                 bx_fired[n] = k
         kbd = "KeyboardInterrupt" in bx_fired.values()
@@ -648,6 +737,7 @@ class C09(Prop):
         if obs.get("crash"):
             if obs["crash"].startswith("UnsafeFilenameError") and unsafe_args:
                 refused = True
+                F("an exception escaped the tool", crash=obs["crash"], cause="unsafe-name-refusal")
             elif obs["crash"].startswith("KeyboardInterrupt") and kbd:
                 pass        # Ctrl-C ends the run: only the safety clauses apply
             else:
@@ -664,9 +754,17 @@ class C09(Prop):
         # ---- who may be written ---------------------------------------------
         auth = collections.defaultdict(list)
         link_args = [a for a in E if facts[a]["islink"]]
+        # files reached through a symlinked DIRECTORY (argument or met while recursing): under error/skip a symlink
+        # gives no go-ahead, whichever component of the name it is; under follow/replace the file behind it (its
+        # real path) is the target
+        via_dirlink = [a for a in E if facts[a].get("dirlink")]
         for a in E:
             if facts[a]["islink"]:
                 t = facts[a]["real"] if policy == "follow" else (a if policy == "replace" else None)
+                if t and facts[a].get("dirlink"):
+                    t = None if policy in ("error", "skip") else facts[a]["real"]
+            elif facts[a].get("dirlink"):
+                t = facts[a]["real"] if policy in ("follow", "replace") else None
             else:
                 t = a
             if t:
@@ -676,7 +774,12 @@ class C09(Prop):
             b, a = before[n], after[n]
             return b[:2] != a[:2]
 
-        ch = [n for n in obs["names"] if changed(n)]
+        def alias(n):
+            # a second name of a path that is snapshotted under its real name as well
+            f = facts.get(n) or {}
+            return bool(f.get("dirlink")) and f.get("real") in before and f.get("real") != n
+
+        ch = [n for n in obs["names"] if changed(n) and not alias(n)]
         k0 = acts.index("REPLACE") if "REPLACE" in acts else None
         pre = acts[:k0] if k0 is not None else []
         for n in ch:
@@ -693,6 +796,9 @@ class C09(Prop):
                     F("target of a symlink argument modified under the error/skip policy", name=n)
                 elif facts.get(n, {}).get("islink") and policy == "follow":
                     F("symlink itself modified under the follow policy", name=n)
+                elif any(facts[a]["real"] == n for a in via_dirlink) and policy in ("error", "skip"):
+                    F("file reached only through a symlinked directory modified under the error/skip policy", name=n,
+                      through=[a for a in via_dirlink if facts[a]["real"] == n][:3])
                 else:
                     F("a file that no argument designates was modified", name=n)
                 continue
@@ -734,12 +840,19 @@ class C09(Prop):
                 F("permission bits of a path that no argument designates changed", name=n, before=oct(b[3]), after=oct(a[3]))
 
         # ---- failures are reported and do not stop the other files ------------
-        if refused or kbd:
+        if kbd:
             return fails[:6]
         failures = []
         for a in case["args"]:
-            if not facts[a]["isfile"] and not facts[a]["isdir"]:
+            if a in unsafe_args:
+                failures.append((a, "the name is refused by Filename"))
+            elif not facts[a]["isfile"] and not facts[a]["isdir"]:
                 failures.append((a, "bad filename"))
+        # a directory whose listing fails (fault): a failure on that directory -- observed (the tool tried to list it)
+        unl = set()
+        for n in obs.get("unlisted_dirs", []):
+            unl.add(n)
+            failures.append((n, "the directory cannot be listed"))
         rew = set(t for t in obs["rewrites"] if t is not None)
         # a rewriter failure is *observed* (the rewriter was called on a text it fails on); the files holding that
         # text (a symlink and its target share it) are the candidates, one of which must be named
@@ -781,25 +894,35 @@ class C09(Prop):
                         and not any(f[0] == a for f in failures):
                     failures.append((a, "the symlink's real path is refused by Filename"))
         generic = ("EOFError" in errtext) or ("UnicodeDecodeError" in errtext)
+        # why the run ended early, when it did (used by the narrow known-finding families)
+        cause = ("symlink-error-exit" if sym_exit else
+                 "systemexit-fault" if set(bx_fired.values()) & {"SystemExit", "SystemExit0"} else
+                 "unsafe-name-refusal" if refused else
+                 "listdir-fault" if unl and obs.get("crash") else
+                 "noisy-failfast" if case.get("noisy") and obs.get("crash") else "other")
+        for fl in fails:
+            if fl.get("what") == "an exception escaped the tool" and "cause" not in fl:
+                fl["cause"] = cause
         if rejected:
             if obs["rc"] == 0:
                 F("rejected command line but exit status 0")
         else:
             for a, why in failures:
                 if obs["rc"] == 0:
-                    F("failure on a file but exit status 0", name=a, why=why)
+                    F("failure on a file but exit status 0", name=a, why=why, cause=cause)
                 p = os.path.join(root, a)
                 if p not in errtext:
-                    F("failure on a file is not reported by name", name=a, why=why, stderr=errtext[-300:])
+                    F("failure on a file is not reported by name", name=a, why=why, cause=cause, stderr=errtext[-300:])
             for cands in shared:
                 if obs["rc"] == 0:
-                    F("failure on a file but exit status 0", name=cands, why="rewriter failure")
+                    F("failure on a file but exit status 0", name=cands, why="rewriter failure", cause=cause)
                 if not any(os.path.join(root, a) in errtext for a in cands):
-                    F("failure on a file is not reported by name", name=cands, why="rewriter failure", stderr=errtext[-300:])
+                    F("failure on a file is not reported by name", name=cands, why="rewriter failure", cause=cause,
+                      stderr=errtext[-300:])
             if generic and obs["rc"] == 0:
-                F("an error was printed but exit status 0", stderr=errtext[-300:])
+                F("an error was printed but exit status 0", cause=cause, stderr=errtext[-300:])
             if bx_fired and obs["rc"] == 0:
-                F("failure on a file but exit status 0", name=sorted(bx_fired), why="SystemExit inside an action")
+                F("failure on a file but exit status 0", name=sorted(bx_fired), why="SystemExit inside an action", cause=cause)
             if (failures or shared or generic or bx_fired) and (k0 is not None or "PRINT" in acts):
                 passive = {"PRINT", "IFCHANGED", "DIFF", "EXECUTE:true", "EXECUTE:echo"}
                 simple = k0 is not None and set(pre) <= passive
@@ -818,8 +941,6 @@ class C09(Prop):
                     o = ref.get(c)
                     if o is None:
                         continue
-                    cause = ("symlink-error-exit" if sym_exit else
-                             "systemexit-fault" if "SystemExit" in bx_fired.values() else "other")
                     if simple and o != c and after[j][:2] != ["file", o]:
                         F("file not processed after a failure on another file", name=j, cause=cause,
                           failed=[f[0] for f in failures], expected="replaced by the rewriter's output")
@@ -841,9 +962,7 @@ class C09(Prop):
                 bcase = copy.deepcopy({k: v for k, v in case.items() if k not in ("faults", "_src")})
                 bcase["args"] = [a for a in case["args"] if a not in FA]
                 if bcase["args"]:
-                    bobs = self._run_plain(bcase)
-                    cause = ("symlink-error-exit" if sym_exit else
-                             "systemexit-fault" if "SystemExit" in bx_fired.values() else "other")
+                    bobs = self._run_plain(bcase, obs["names"])
                     owned = FA | reals
                     for n in sorted(set(obs["names"]) | set(bobs["after"])):
                         if n in owned:
@@ -890,8 +1009,14 @@ class C09(Prop):
         if "probe" in obs:
             return [dict(op="safeName", name=n) for n in case["names"]]
         for k in ((case.get("faults") or {}).get("rw") or {}).values():
-            if k in ("SystemExit", "KeyboardInterrupt"):
+            if k in BASE_EXC_FAULTS:
                 return []       # BaseException out of the rewriter hook: oracle only (not modelled)
+        if (case.get("faults") or {}).get("list"):
+            return []           # os.listdir failing: oracle only (not modelled)
+        if any(f["islink"] and f["isdir"] for f in obs["facts"].values()):
+            # a symlink to a directory: the files below it have two names for one inode, which the model's
+            # file system (Path -> Node) cannot express: oracle only
+            return []
         tree = case["tree"]
         names, pid, cid, ltarget = self._numbering(case, obs)
         fs = []
@@ -943,7 +1068,8 @@ class C09(Prop):
             r = (obs["facts"].get(n) or {}).get("real")
             if r is not None:
                 realnames.append([pid[n], os.path.normpath(os.path.join(root, r)) if not r.startswith("//") else r[2:]])
-        return [dict(op="main", tty=False, keep=bool(self._keep), opts=opts, fs=fs, rw=rw, unreadable=unreadable,
+        return [dict(op="main", tty=False, keep=bool(self._keep), isoUnsafe=bool(self._iso),
+                     failFast=bool(case.get("noisy")) and bool(self._ff), opts=opts, fs=fs, rw=rw, unreadable=unreadable,
                      realnames=realnames,
                      names=[[pid[n], os.path.join(root, n)] for n in names], unwritable=sorted(unwritable), args=[pid[a] for a in case["args"]],
                      answers=list(case.get("answers", [])), paths=[pid[n] for n in names])]
@@ -972,6 +1098,12 @@ class C09(Prop):
         elif r.get("refused"):
             if not (obs["crash"] or "").startswith("UnsafeFilenameError"):
                 diffs.append("model: run refused (unsafe argument name); impl rc=%r crash=%r" % (obs["rc"], obs["crash"]))
+        elif r.get("crash"):
+            # fail-fast: the model says this file's exception leaves the tool
+            kind = self.ERRCLASS.get((obs["crash"] or "").split(":")[0], "rewriter") if obs["crash"] else None
+            if kind != r["crash"][1]:
+                diffs.append("model: exception %r of %s leaves the tool (fail-fast); impl crash=%r msg=%r"
+                             % (r["crash"][1], name_of[r["crash"][0]], obs["crash"], (obs["msg"] or "")[:100]))
         elif obs["crash"]:
             diffs.append("impl crashed: %s" % obs["crash"])
         # file system
@@ -999,12 +1131,23 @@ class C09(Prop):
                 diffs.append("model: SystemExit from symlink_error naming %s; impl msg=%r" % (name_of[r["sysexit"]], msg[:200]))
         else:
             got = []
+            want = [[name_of[p], k] for p, k in r["summary"]]
             if "encountered the following problems" in msg:
-                for m in re.finditer(r"    (%s/[^:\s]+): (bad filename|[A-Za-z_][A-Za-z_0-9.]*)" % re.escape(root), msg):
+                body = msg.split("encountered the following problems:\n", 1)[-1]
+                # refused argument names come first, verbatim (they may hold any character: matched literally)
+                for w in want:
+                    # (process_actions lays an entry out as its first line + its further lines, indented, glued)
+                    ls_ = ("%s: bad filename" % os.path.join(root, w[0])).splitlines() or [""]
+                    lit = "    " + ls_[0] + "\n".join("            %s" % l for l in ls_[1:])
+                    if w[1] == "bad" and not documented_safe(os.path.join(root, w[0])) and body.startswith(lit):
+                        body = body[len(lit):]
+                        got.append(list(w))
+                    else:
+                        break
+                for m in re.finditer(r"    (%s/[^:\s]+): (bad filename|[A-Za-z_][A-Za-z_0-9.]*)" % re.escape(root), body):
                     got.append([rel(root, m.group(1)), self.ERRCLASS.get(m.group(2), "rewriter")])
             elif msg:
                 diffs.append("unexpected final message %r" % msg[:200])
-            want = [[name_of[p], k] for p, k in r["summary"]]
             if got != want:
                 diffs.append("final message names: model=%r impl=%r" % (want, got))
         # events: stdout, rewriter calls, echo lines
@@ -1069,6 +1212,16 @@ class C09(Prop):
                 inc("write_failure_" + w[1].split(":")[-1])
         for k in ((case.get("faults") or {}).get("rw") or {}).values():
             inc("rewriter_fault_" + k)
+        if case.get("noisy"):
+            inc("noisy_" + case["noisy"])
+            if obs.get("crash"):
+                inc("noisy_and_exception_left_the_tool")
+        if (case.get("faults") or {}).get("list"):
+            inc("listdir_fault" + ("_fired" if obs.get("listed_fail") else "_not_reached"))
+        if any(f["islink"] and f["isdir"] for f in obs["facts"].values()):
+            inc("tree_with_symlinked_directory")
+        if any(obs["facts"].get(a, {}).get("dirlink") for a in obs["expanded"]):
+            inc("file_reached_through_symlinked_directory")
         acts, pol, rej = configured(case)
         inc("policy_" + pol)
         inc("rc_%s" % (obs["rc"] if obs["rc"] in (0, 1, 2) else "other"))
@@ -1112,12 +1265,47 @@ class C09(Prop):
             return pol == "error" and any(v[0] == "link" for v in case["tree"].values())
         if fl.get("cause") == "systemexit-fault":
             # the same root cause (process_actions isolates `Exception` only), reached by the fault hook
-            return "SystemExit" in ((case.get("faults") or {}).get("rw") or {}).values()
+            return bool({"SystemExit", "SystemExit0"} & set(((case.get("faults") or {}).get("rw") or {}).values()))
         return False
+
+    EARLY_END = ("an exception escaped the tool", "file not processed after a failure on another file",
+                 "failure on a file is not reported by name")
+
+    @staticmethod
+    def _fam_c09_2(case, fl):
+        # --verbose / PYFLYBY_LOG_LEVEL=DEBUG: the first per-file exception is re-raised out of process_actions
+        return bool(case.get("noisy")) and fl.get("cause") == "noisy-failfast" and fl.get("what") in C09.EARLY_END
+
+    @staticmethod
+    def _fam_c09_3(case, fl):
+        acts, pol, rej = configured(case)
+        return (fl.get("what") == "file reached only through a symlinked directory modified under the error/skip policy"
+                and pol in ("error", "skip") and any(v[0] == "link" for v in case["tree"].values()))
+
+    @staticmethod
+    def _fam_c09_1a(case, fl):
+        # an argument name outside Filename's whitelist: UnsafeFilenameError leaves filename_args, the run ends
+        return (fl.get("cause") == "unsafe-name-refusal" and fl.get("what") in C09.EARLY_END
+                and any(not documented_safe("/w/" + a) for a in case["args"]))
+
+    @staticmethod
+    def _fam_c09_1b(case, fl):
+        # os.listdir of a directory fails while the argument list is expanded: the OSError ends the run
+        return (fl.get("cause") == "listdir-fault" and fl.get("what") in C09.EARLY_END
+                and bool((case.get("faults") or {}).get("list")))
+
+    @staticmethod
+    def _fam_c09_4(case, fl):
+        # sys.exit(0) inside the rewriter: the run ends silently with status 0 (root cause shared with D12c)
+        # (errors collected for other files are dropped with it, so their status is 0 too)
+        return (fl.get("what") in ("failure on a file but exit status 0", "an error was printed but exit status 0")
+                and fl.get("cause") == "systemexit-fault"
+                and "SystemExit0" in ((case.get("faults") or {}).get("rw") or {}).values())
 
     families = {}
 
 
-C09.families = {"D4": C09._fam_d4, "D12": C09._fam_d12}
+C09.families = {"D4": C09._fam_d4, "D12": C09._fam_d12, "C09-2": C09._fam_c09_2, "C09-3": C09._fam_c09_3,
+                "C09-1a": C09._fam_c09_1a, "C09-1b": C09._fam_c09_1b, "C09-4": C09._fam_c09_4}
 
 PROP = C09()
